@@ -19,4 +19,17 @@ PROPS = {
         assumptions=["strconv.Quote (%q) is modelled for printable text without control characters only; generators stay inside that alphabet"],
         exhaustive_in_thorough=False,
     ),
+    "C17": dict(
+        streams=[dict(mode="graph", quick=6000, thorough=120000, workers=12)],
+        rule="operation histories of length 1-40 over 2-5 base keys x 1-2 file versions x 4 edge kinds + 2 universe primitives, ops AddAlias/AddConst/AddStruct/AddEnum/AddPrimitive/AddEdge/RemoveEdge(kind|nil)/RemoveNode, every query (FindByKind/Get/Exists/GetEdges/Children/Parents/Descendants, sorted and unsorted) dumped after every op and compared with the model's dump and with the plain set-of-nodes/set-of-edges specification (incl. the eviction least fixed point); thorough adds every history of length<=3 over a 2-key universe; non-trivial = at least 3 ops and a non-empty final edge set; distinct = distinct history",
+        trusted_base=COMMON_TB + [
+            "model Gleece/Model/Graph.lean is hand-written (relational rendering of the nested Go maps); tie = exact equality of all query dumps after every operation",
+            "RemoveNode's nested recursion is modelled with explicit fuel (|nodes|+|revDeps|+2); exhaustion would be reported as a model failure (never observed)",
+            "Go map iteration order inside RemoveNode/Descendants is not modelled: the model iterates in insertion order and the outputs compared are order-free (sets) or ordinal-sorted",
+        ],
+        partial=["removeNode_lfp: equality of the cascade with the least-fixed-point eviction set is checked on every generated history by the decidable spec (A.removeNode) but not proved in Lean",
+                 "AddField/AddRoute*/AddController are not driven (they need go/ast + TypeUsageMeta fixtures); they are compositions of createAndAddSymNode and AddEdge, which are"],
+        assumptions=["children/parents are compared as sets of nodes (Go returns one entry per edge and per recorded parent key)"],
+        exhaustive_in_thorough=False,
+    ),
 }
